@@ -257,6 +257,28 @@ def c09_r4(ctx):
                        detail="receiver: %s" % recv, loc=ctx.nodeloc(f, c))
     if n < 6:
         raise AnalysisError("only %d statistic reads found in scoring.py" % n)
+    # everything scoring.py calls on a searcher exists on Searcher (scorers are built per term at search time)
+    from ..model import self_attr_assignments
+    scls = prog.cls("searching.Searcher")
+    sattrs = self_attr_assignments(prog, scls)
+    # reader methods are copied onto the Searcher in __init__ (setattr loop over a literal tuple of names)
+    copied = set()
+    init = prog.lookup(scls, "__init__")
+    for nd in ast.walk(init.node):
+        if isinstance(nd, ast.For) and isinstance(nd.iter, (ast.Tuple, ast.List)) and any(norm.call_name(c) == "setattr" for c in norm.calls_in(nd)):
+            copied |= set(e.value for e in nd.iter.elts if isinstance(e, ast.Constant))
+    for f in prog.functions.values():
+        if f.module is not mod:
+            continue
+        for c in norm.calls_in(f.node, include_nested_defs=True):
+            if not isinstance(c.func, ast.Attribute):
+                continue
+            recv = norm.deep_canon(c.func.value, f.node)
+            if recv not in ("searcher", "searcher.get_parent()", "self.searcher"):
+                continue
+            nm = c.func.attr
+            ok = prog.lookup(scls, nm) is not None or nm in sattrs or nm in copied
+            ctx.ob(f, ok, "Searcher.%s exists" % nm, detail="AttributeError when the scorer is created" if not ok else "", loc=ctx.nodeloc(f, c))
     # Searcher.idf/avg_field_length delegate to its own reader (which for the parent is the whole index)
     gp = prog.method("searching.Searcher", "get_parent", inherited=False)
     rets = [norm.canon(r.value) for r in returns_of(gp) if r.value is not None]
